@@ -179,6 +179,8 @@ func TestC04(t *testing.T) {
 			p.MaxTxs = 9
 			p.W["replay"] = 14
 			p.W["transfer"] = 24
+			// the nonce of an account also moves inside the EVM (contract creation, calls): more of those here
+			p.W["deployp"], p.W["callp"] = 7, 10
 			p.PFault = 18
 			p.PEvidence, p.PAbsent = 2, 2
 			p.NonceChaos = true
